@@ -751,6 +751,20 @@ def account_stream(ctx, rng):
         absent = key ^ (1 << rng.randrange(256))
         if absent not in accs:
             run_account_case(ctx, dag, roots, blk_hash, absent, sidx, 'rej', 'account:absent', 'address not in the dictionary accepted')
+        # the account's branch of the dictionary is PRUNED away (the proof shows nothing about it) and an empty state is claimed:
+        # "not found in what the proof reveals" is no proof of absence
+        others = [k for k in accs if k != key]
+        keep_other = (set(path[rng.choice(others)]) | {sroot}) if others else {sroot}       # another account's branch stays revealed
+        dpr, rpr, _, _ = build(state_keep=keep_other, prune_p=1.0)
+        dpr = list(dpr) + [(G.ORD, '', ())]
+        run_account_case(ctx, dpr, rpr, blk_hash, key, len(dpr) - 1, 'rej', 'account:pruned-path-empty-state',
+                         'empty cell accepted as the state of an account whose dictionary branch is pruned in the proof')
+        run_account_case(ctx, dpr, rpr, blk_hash, key, sidx if sidx < len(dpr) - 1 else 0, 'rej', 'account:pruned-path',
+                         'account proof whose dictionary branch to the account is pruned accepted')
+        if absent not in accs:
+            de = list(dag) + [(G.ORD, '', ())]
+            run_account_case(ctx, de, roots, blk_hash, absent, len(de) - 1, None, 'account:absent-empty-state',
+                             'empty cell claimed for an address that is not in the (revealed part of the) dictionary')
         # root count / order / non-proof roots
         run_account_case(ctx, dag, roots[:1], blk_hash, key, sidx, 'rej', 'sound:roots', 'one root accepted')
         run_account_case(ctx, dag, roots + roots[:1], blk_hash, key, sidx, 'rej', 'sound:roots', 'three roots accepted')
